@@ -239,6 +239,29 @@ def chunksOf {α : Type} (n : Nat) : Nat → List α → List (List α)
 @[inline] def charFromU32Unchecked {ε : Type} (n : Nat) : Ctl ε Nat :=
   if n < 0xD800 ∨ (0xE000 ≤ n ∧ n ≤ 0x10FFFF) then .val n else .ub
 
+/-! ### `MaybeUninit<T>` as `Option T` (`none` = uninitialised) -/
+
+/-- `uninit_array::<T, N>()` -/
+@[inline] def uninitArray {α : Type} (n : Nat) : List (Option α) := List.replicate n none
+
+/-- `MaybeUninit::assume_init_read` / `ptr::read` of a slot: undefined behaviour on an uninitialised slot -/
+@[inline] def assumeInitRead {ε α : Type} (x : Option α) : Ctl ε α :=
+  match x with
+  | some v => .val v
+  | none => .ub
+
+/-- `from_raw_parts(arr.as_ptr().add(off).cast::<T>(), n)` on an array of `MaybeUninit<T>`: undefined behaviour
+    unless the range is inside the array and every slot in it is initialised -/
+@[inline] def rawPartsInit {ε α : Type} (arr : List (Option α)) (off n : Nat) : Ctl ε (List α) :=
+  if off + n ≤ arr.length ∧ ((arr.drop off).take n).all Option.isSome then
+    .val (((arr.drop off).take n).filterMap id)
+  else .ub
+
+/-- reading a whole `[MaybeUninit<T>; N]` as `[T; N]` (`assume_init` of the array / the `repr(C)` read in
+    `ArrayBuilder::build`): undefined behaviour unless there are exactly `n` slots and all are initialised -/
+@[inline] def assumeInitArray {ε α : Type} (arr : List (Option α)) (n : Nat) : Ctl ε (List α) :=
+  if arr.length = n ∧ arr.all Option.isSome then .val (arr.filterMap id) else .ub
+
 /-- `CStr::from_bytes_with_nul_unchecked`: undefined behaviour unless the bytes end with a nul and contain no
     other nul.  A `&CStr` is modelled as its bytes including the terminating nul. -/
 @[inline] def cstrFromBytesWithNulUnchecked {ε : Type} (b : List Nat) : Ctl ε (List Nat) :=
